@@ -11,7 +11,7 @@ RULE = ('(1) pre stage as in C11 (implementation vs extracted model) with the de
         'between lines (texts without a remark opener)} on generated documents, mutations and token soup for 7 roots; non-trivial = '
         'the document has at least one nested block; distinct by (root, text, transformation).')
 TRUSTED_BASE = C11.TRUSTED_BASE + ['end-to-end comparison uses lxml serialisation of the implementation output with the generation date masked']
-ASSUMPTIONS = C11.ASSUMPTIONS + ['blank-line and scaling invariance are not theorems yet: decided by the metamorphic search only']
+ASSUMPTIONS = C11.ASSUMPTIONS + ['invariance under extra blank lines between lines is not a theorem: decided by the metamorphic search only']
 
 IND, DED = '\x0e', '\x0f'
 WIDE = '\xa0\u3000\u2003\u2009\u202f'
@@ -183,11 +183,12 @@ def replay(obj):
 LEVEL_TEXT = ('Proof on the Gallina model of pre_parse, for all texts over the alphabet and all indent sizes: first content line at depth 0 and, for '
               'consecutive non-blank lines, deeper -> exactly one more level, same indentation -> same depth, less -> never deeper '
               '(C12_nesting_follows_indentation); a tab equals indent_size spaces anywhere and whitespace around the text is irrelevant, as '
-              'equalities of pre_parse outputs and hence of everything downstream (C12_tab_is_spaces, C12_outer_whitespace_irrelevant); multiplying '
+              'equalities of pre_parse outputs and hence of everything downstream (C12_tab_is_spaces, C12_outer_whitespace_irrelevant); any number of '
+              'spaces in front of any line break of any text changes nothing (C12_trailing_spaces_irrelevant); multiplying '
               'all indentation of a cleaned text by any constant k >= 1 gives the same pre-parsed text, because the indentation pass is invariant '
               'under any strictly monotone renumbering of the levels (C12_indent_scaling). The model is tied to parser.py by the pre stage '
-              '(exhaustive for short indentation sequences). Trailing-space and blank-line invariance are decided end to end by metamorphic runs '
-              'on the implementation, which also re-check scaling (partial).')
+              '(exhaustive for short indentation sequences). Invariance under extra blank lines between lines is a property of the grammar (eol) '
+              'and is decided end to end by metamorphic runs on the implementation, which also re-check the other transformations (partial).')
 LEVEL_NOTE = ('Trusted: Coq kernel, gen_tables_parser.py, hand model PreParse.v tied by differential run, extraction + driver. The nesting '
               'theorem holds for the repaired pre_parse (fix: commit in /repo); the metamorphic part is a search, not a theorem.')
 TECHNIQUE = 'Rocq proof (stack invariant: top of stack = level of the last line; invariance of the indentation pass under monotone renumbering) + differential run + metamorphic end-to-end search'
